@@ -26,4 +26,20 @@ let dispatch (f : string array) : string option =
   | "take_while_ne" ->
       let (t, r) = api_take_while_ne (n_of_int (int_of_string f.(1))) (a 2) in
       Some ("T:" ^ hex_str t ^ "|" ^ hex_str r)
+  | "hread" | "hread_cursor" ->
+      (* hread <backend> <data> <ops> *)
+      let data = bytes_of_hex f.(2) in
+      let ops = parse_rops (if Array.length f > 3 then f.(3) else "") in
+      if f.(0) = "hread" then
+        Some (match api_mf_run data ops with
+              | Done (fl, rs) -> String.concat ";" (List.map rres_s rs) ^ "|pos=" ^ string_of_z fl.mf_pos
+              | Panic -> "PANIC" | OutOfFuel -> "OUTOFFUEL")
+      else
+        let (c, rs) = api_c_run data ops in
+        Some (String.concat ";" (List.map rres_s rs) ^ "|pos=" ^ string_of_z c.c_pos)
+  | "hwrite" ->
+      (* hwrite <backend> <w|a> <old> <removed 0|1> <ops> *)
+      let tr = api_wh_trace (f.(2) = "a") (bytes_of_hex f.(3)) (f.(4) = "1")
+                 (parse_wops (if Array.length f > 5 then f.(5) else "")) in
+      Some (String.concat ";" (List.map (function Some b -> "c" ^ hex_of_bytes b | None -> "none") tr))
   | _ -> None
